@@ -220,15 +220,15 @@ def retLines (w : World) : WOp → List String
     | none => []
   | _ => []
 
-/-- `backfill_or_panic` of an own, still-pending placeholder with a source of the wrong size: a
-documented panic that the harness catches (`catch_unwind`) to keep the case going.  The size check is
-the first statement of `backfill_or_panic`, so nothing has changed; the harness prints the state after
-the caught panic and it is compared with the unchanged world. -/
+/-- `backfill_or_panic` with a source of the wrong size, for ANY token (own, foreign, stale or the
+empty token): a documented panic that the harness catches (`catch_unwind`) to keep the case going.
+The real function compares the sizes before it looks anything up, so nothing has changed; the
+harness prints the state after the caught panic and it is compared with the unchanged world. -/
 def caughtPanic (w : World) : WOp → Bool
-  | .backfill i bi bs =>
-    match w.brefs.getD bi none, w.iov i with
-    | some (key, info), some v => info.len ≠ bs.length && v.backrefs.any (fun e => e == (key, info))
-    | _, _ => false
+  | .backfill _ bi bs =>
+    match w.brefs.getD bi none with
+    | some (_, info) => info.len ≠ bs.length
+    | none => !bs.isEmpty
   | _ => false
 
 /-- One parsed op: the next world is `World.step`'s. -/
